@@ -91,6 +91,11 @@ def run_proofs(report, prop, modules, timeout_ms=None):
                     if o["result"] == "vacuous":
                         report.failures.append(f"vacuous precondition in {fn}")
                     continue
+                mine_ = (not o["tags"]) or prop in o["tags"]
+                if not mine_ and o["result"] != "proved":
+                    # an obligation owned by other properties only: reported by their checks, not counted here
+                    report.coverage.setdefault("foreign_undischarged", []).append(o["name"])
+                    continue
                 tot += 1
                 f_tot += 1
                 key = ob_key(fn, o)
